@@ -91,12 +91,19 @@ fn gen(rng: &mut Rng, _idx: u64, tier: Tier) -> Case {
     let stamp = |t_us: i64, frame_hex: &str| -> Vec<u8> { format!("@{:012X}{};\n", (t_us * 12) & 0xFFFF_FFFF_FFFF, frame_hex).into_bytes() };
     // a long run of consecutive junk lines somewhere in the stream
     let burst_at = if rng.chance(0.15) { Some(rng.below(valid.len() as u64 + 1) as usize) } else { None };
+    // very rarely: tens of thousands of junk lines (more than 65 536) before the valid traffic goes on
+    let flood_at = if rng.chance(0.005) { Some(rng.below(valid.len() as u64 + 1) as usize) } else { None };
     for (vi, mut l) in valid.into_iter().enumerate() {
         if burst_at == Some(vi) {
             for _ in 0..rng.range(60, 300) {
                 let k = *rng.pick(&["empty", "blank", "text", "hex13", "hex27", "high-bytes", "lone-cr", "truncated-frame", "semicolon-only", "nul"]);
                 lines.push((0, gen::junk(rng, k), format!("junk:burst-{}", k)));
             }
+        }
+        if flood_at == Some(vi) {
+            let mut blob: Vec<u8> = vec![];
+            for _ in 0..rng.range(65_600, 70_000) { blob.extend_from_slice(*rng.pick(&[&b"\n"[..], b" \n", b";\n", b"*;\n", b"x\n"])); }
+            lines.push((0, blob, "junk:flood".into()));
         }
         push_junk(rng, &mut lines, &mut acs);
         clock_us += l.0;
@@ -117,6 +124,7 @@ fn gen(rng: &mut Rng, _idx: u64, tier: Tier) -> Case {
         lines.push(l);
     }
     push_junk(rng, &mut lines, &mut acs);
+    gen::long_uptime(rng, &mut lines, 0.03);
     // read boundaries: anywhere, across lines too
     let mode = rng.below(3);
     let mut ops: Vec<Op> = vec![];
